@@ -28,7 +28,7 @@ ASSUMPTIONS = ["applications that deliver fewer bytes than they declare, 1xx sta
 PROBES = ["app_raised_httperror", "second_response_without_length", "http10_keepalive", "clipped_to_length", "empty_yields", "generator_return_value",
           "mixed_versions_on_connection", "status_204_304"]
 BOUNDS = dict(quick=dict(requests=5, pieces=5), thorough=dict(requests=7, pieces=6))
-TIERS = dict(quick=dict(cases=20000, wall=45.0), thorough=dict(cases=1500000, wall=420.0))
+TIERS = dict(quick=dict(cases=50000, wall=60.0), thorough=dict(cases=1500000, wall=420.0))
 SIM_TIME_UNIT = "net steps"
 
 STATUSES = ["200 OK", "201 Created", "404 Not Found", "500 Internal Server Error", "301 Moved Permanently", "204 No Content", "304 Not Modified"]
